@@ -22,7 +22,8 @@ fn selected() -> Option<String> {
     std::env::var("CBV_FUZZ_PROP").ok().filter(|s| !s.is_empty())
 }
 
-const PROFILES: [Profile; 20] = [
+const PROFILES: [Profile; 21] = [
+    Profile::Refuse,
     Profile::AnySingle,
     Profile::Composed,
     Profile::Composed,
@@ -65,7 +66,7 @@ pub fn world_findings(profile: Profile, sc: &scn::Scenario) -> Vec<Finding> {
         ok
     };
     let dual = matches!(profile, Profile::Dual(_));
-    if all_puppets && ((sc.sinks.len() == 1 && sc.attach_first) || dual) && sc.sink_kind == scn::SinkKind::Probe && !matches!(profile, Profile::LateAny | Profile::LateShare) {
+    if all_puppets && ((sc.sinks.len() == 1 && sc.attach_first) || dual) && sc.sink_kind == scn::SinkKind::Probe && !matches!(profile, Profile::LateAny | Profile::LateShare | Profile::Refuse) {
         f.extend(models::c07(&cx));
         f.extend(models::c08(&cx));
         f.extend(models::c09(&cx));
@@ -84,6 +85,8 @@ pub fn world_findings(profile: Profile, sc: &scn::Scenario) -> Vec<Finding> {
     match profile {
         Profile::LateAny => f.retain(|x| x.prop == "C01" || x.prop == "C17"),
         Profile::LateShare => f.retain(|x| x.prop == "C01"),
+        // a source that refuses its subscription is conformant only in the sense of C01's sanctioned exception
+        Profile::Refuse => f.retain(|x| x.prop == "C05"),
         _ => {}
     }
     if !h.harness_errors.is_empty() {
@@ -111,9 +114,12 @@ pub fn fuzz_world(data: &[u8]) {
         return;
     }
     let profile = PROFILES[(data[0] as usize * PROFILES.len()) >> 8];
-    let sc = scn::decode(profile, &data[1..], 48);
-    let findings = world_findings(profile, &sc);
+    let mut sc = scn::decode(profile, &data[1..], 48);
     let sel = selected();
+    if !sel.as_deref().map_or(false, |s| scn::TEARDOWN_PROPS.contains(&s)) {
+        scn::strip_teardown(&mut sc);
+    }
+    let findings = world_findings(profile, &sc);
     let bad: Vec<&Finding> = findings
         .iter()
         .filter(|f| sel.as_deref().map_or(true, |s| s == f.prop || f.prop == "SELF"))
